@@ -1,4 +1,4 @@
-import TcheranVerif.Model.See
+import TcheranVerif.Model.SeeSeq
 /-!
 # The pruned exchange loop computes the sign of the full swap list (C20)
 
@@ -15,24 +15,6 @@ the least valuable attacker, same x-ray refreshes, same rule for the king).  `lo
 
 namespace Tcheran
 namespace See
-
-/-- the loop of `see` over a given sequence of capturer values (`opp`: the opponent of the mover is to capture) -/
-def loopAbs : List Int → Bool → Int → Int → Int
-  | [], _, s, _ => s
-  | v :: rest, opp, s, victim =>
-    if (opp = false ∧ s ≥ 0) ∨ (opp = true ∧ s ≤ 0) then s
-    else loopAbs rest (!opp) (if opp then s - victim else s + victim) v
-
-/-- the swap list folded from the back: value, for the side to capture next, of the man on the square (`onT`)
-    when the remaining capturers are `vs`; standing pat is always allowed -/
-def swapAbs : List Int → Int → Int
-  | [], _ => 0
-  | v :: rest, onT => max 0 (onT - swapAbs rest v)
-
-/-- every man that is actually captured is worth an odd multiple of 100 -/
-def Good : List Int → Int → Prop
-  | [], _ => True
-  | v :: rest, onT => onT % 200 = 100 ∧ Good rest v
 
 theorem swapAbs_nonneg (vs : List Int) (onT : Int) : 0 ≤ swapAbs vs onT := by
   cases vs with
@@ -98,38 +80,6 @@ theorem abs_agree (vs : List Int) : ∀ (s victim : Int), Good vs victim →
         omega
 
 /-! ## the model's own sequence of capturers -/
-
-/-- the successive capturers of the model's loop when nobody stops early (the state is advanced exactly as in
-    `loop`, score included) -/
-def trace (b : Board) (mover : Player) (to : Sq) : Nat → St → List Int
-  | 0, _ => []
-  | fuel+1, st =>
-    let color := st.color.other
-    let mine := st.attackers &&& b.occFor color
-    if mine = 0#64 then [] else
-    match PieceKind.all.find? (fun k => (mine &&& b.piecesOf k color) ≠ 0#64) with
-    | none => []
-    | some k =>
-      match pickSquare color (mine &&& b.piecesOf k color) with
-      | none => []
-      | some asq =>
-        match b.pieceAt asq with
-        | none => []
-        | some apc =>
-          let attacker := apc.kind
-          if attacker = .king ∧ (st.attackers &&& b.occFor color.other) ≠ 0#64 then [] else
-          let occupied := st.occupied ^^^ bb asq
-          let attackers := st.attackers &&& occupied
-          let diag := st.diag &&& occupied
-          let orth := st.orth &&& occupied
-          let attackers :=
-            if attacker = .pawn ∨ attacker = .bishop ∨ attacker = .queen then
-              attackers ||| (bishopAttacks to occupied &&& diag) else attackers
-          let attackers :=
-            if attacker = .rook ∨ attacker = .queen then
-              attackers ||| (rookAttacks to occupied &&& orth) else attackers
-          let score := if color = mover then st.score + pieceValue st.victim else st.score - pieceValue st.victim
-          pieceValue attacker :: trace b mover to fuel { score, victim := attacker, occupied, attackers, diag, orth, color }
 
 theorem other_ne (p : Player) : p.other ≠ p := by cases p <;> simp [Player.other]
 
@@ -238,36 +188,6 @@ theorem trace_good (b : Board) (mover : Player) (to : Sq) : ∀ (fuel : Nat) (st
 
 /-! ## `see` at threshold zero -/
 
-/-- the occupancy after the first capture (`none`: an e.p. move without an e.p. square — `unwrap` panics) -/
-def occAfter (g : Game) (mv : Move) : Option BB :=
-  let occupied := (g.board.occupancy ^^^ bb mv.src) ||| bb mv.dst
-  if mv.isEnPassant then g.ep.map (fun e => occupied ^^^ bb e) else some occupied
-
-/-- what the mover has won by the first capture: the man taken plus the promotion surplus -/
-def gain (g : Game) (mv : Move) : Int :=
-  (match g.board.pieceAt mv.dst with
-    | some pc => pieceValue pc.kind
-    | none => if mv.isEnPassant then pieceValue .pawn else 0) +
-  (match mv.promotion with
-    | some pr => pieceValue pr.piece - pieceValue .pawn
-    | none => 0)
-
-/-- the man that stands on the target square after the first capture -/
-def placed (moved : Piece) (mv : Move) : PieceKind :=
-  match mv.promotion with
-  | some pr => pr.piece
-  | none => moved.kind
-
-/-- the loop's first state -/
-def initSt (g : Game) (mv : Move) (moved : Piece) (occupied : BB) : St :=
-  { score := gain g mv, victim := placed moved mv, occupied,
-    attackers := allAttackersOf g.board mv.dst occupied &&& occupied,
-    diag := g.board.allDiagSliders &&& occupied, orth := g.board.allOrthSliders &&& occupied, color := g.player }
-
-/-- the capturers that follow the first capture, as the model's loop would choose them -/
-def capturers (g : Game) (mv : Move) (moved : Piece) (occupied : BB) : List Int :=
-  trace g.board g.player mv.dst 64 (initSt g mv moved occupied)
-
 theorem see_unfold (g : Game) (mv : Move) (moved : Piece) (occ : BB) (r : Bool)
     (hsrc : g.board.pieceAt mv.src = some moved) (hocc : occAfter g mv = some occ)
     (h : see g mv 0 = some r) :
@@ -290,6 +210,41 @@ theorem see_unfold (g : Game) (mv : Move) (moved : Piece) (occ : BB) (r : Bool)
       · cases mv.promotion <;> cases g.board.pieceAt mv.dst <;> simp only <;> omega
       · cases mv.promotion <;> rfl
     · exact (Option.some.inj h).symm
+
+/-! ## the independent mailbox computation is the same fold, over its own sequence -/
+
+theorem swap_succ (t : Sq) (fuel : Nat) (b : Rules.RBoard) (c : Player) (onT : Int) :
+    swap t (fuel + 1) b c onT =
+      (match pickLeast (attackersOn b c t) with
+      | none => (0, false)
+      | some (s, k) =>
+        if k == .king && !(attackersOn b c.other t).isEmpty then
+          (0, decide (((attackersOn b c t).filter (fun a => a.2 == k)).length > 1))
+        else
+          (max 0 (onT - (swap t fuel (Rules.setSq (Rules.setSq b s none) t (some ⟨k, c⟩)) c.other (pieceValue k)).1),
+           decide (((attackersOn b c t).filter (fun a => a.2 == k)).length > 1) ||
+             (swap t fuel (Rules.setSq (Rules.setSq b s none) t (some ⟨k, c⟩)) c.other (pieceValue k)).2)) := by
+  rfl
+
+/-- **swap_is_swapAbs** -/
+theorem swap_is_swapAbs (t : Sq) : ∀ (fuel : Nat) (b : Rules.RBoard) (c : Player) (onT : Int),
+    (swap t fuel b c onT).1 = swapAbs (seq t fuel b c) onT := by
+  intro fuel
+  induction fuel with
+  | zero => intro b c onT; rfl
+  | succ fuel ih =>
+    intro b c onT
+    rw [swap_succ]
+    unfold seq
+    cases pickLeast (attackersOn b c t) with
+    | none => rfl
+    | some sk =>
+      obtain ⟨s, k⟩ := sk
+      simp only
+      split
+      · rfl
+      · simp only [swapAbs]
+        rw [← ih]
 
 end See
 end Tcheran
